@@ -566,7 +566,7 @@ func (e *c08Env) do(path, enc, shape string, wire [][]byte, flags []byte, prefix
 		resp.ok = w.Code == 200
 		resp.sizeErr = w.Code == larking.HTTPStatusCode(codes.ResourceExhausted)
 		rb := w.Body.Bytes()
-		if w.Header().Get("Content-Encoding") == "gzip" {
+		if w.Result().Header.Get("Content-Encoding") == "gzip" {
 			if d, err := c08Gunzip(rb); err == nil {
 				rb = d
 			} else {
